@@ -32,4 +32,8 @@ C10_DiscoveryComplete == (J /\ Dsc) => (T.expected = Len(T.got) /\ T.strays = T.
 \* a discovery issued with the token of one that is still pending is refused (and, by the two clauses above, does not
 \* take over or remove the pending one's registration)
 C10_DiscoveryDupRefused == (J /\ Dsc) => T.dupRefused
+\* a peer whose handler is stuck and whose receive queue is full parks the server's read loop; once that peer's connection
+\* is closed the other peers are served again, and the server can still be stopped
+Stk == T.op = "stuck"
+C10_StuckPeerClosed == (J /\ Stk /\ T.busy /\ T.bBefore) => (T.answeredB /\ T.stopped)
 =============================================================================
